@@ -358,7 +358,8 @@ def rule_e(ctx: Ctx):
     for rel, fn in (("rl4co/models/common/constructive/base.py", "ConstructivePolicy.forward"), ("rl4co/utils/decoding.py", "rollout")):
         fi = ctx.repo.get_function(rel, fn)
         ctx.fn(fi)
-        loops = [n for n in ast.walk(fi.node) if isinstance(n, ast.While)]
+        from ..model import canon_counters
+        loops = [n for n in ast.walk(canon_counters(fi.node)) if isinstance(n, ast.While)]
         ok, why = False, "no `while not td['done'].all()` loop found"
         for w in loops:
             t = w.test
